@@ -895,11 +895,202 @@ def rule_bit_order(ctx: Ctx) -> None:
         raise AnalysisError(f"undecided: bit-order: {e}") from e
 
 
+class _Sym:
+    """an arbitrary scalar wire value (circuit id, flag, message id): the layout argument is parametric in it"""
+
+    def __init__(self, name: str) -> None:
+        self.name = name
+
+    def __repr__(self) -> str:
+        return f"<{self.name}>"
+
+    def __bool__(self) -> bool:
+        raise MiniUndecided(f"the cell codec branches on the value of {self.name}")
+
+    __index__ = __int__ = __bool__
+
+
+def _fields_of(fmt: str) -> list[str]:
+    order = fmt[0] if fmt[:1] in "@=<>!" else ""
+    out, count = [], ""
+    for ch in fmt[len(order):]:
+        if ch.isdigit():
+            count += ch
+            continue
+        if ch == "s":
+            out.append(order + (count or "1") + "s")
+        else:
+            out.extend([order + ch] * int(count or 1))
+        count = ""
+    return out
+
+
+class _SymBytes:
+    """
+    A byte string as a list of segments: ("c", bytes) literal bytes; ("p", code, value) one struct field of known size holding an
+    arbitrary value; ("o", name, lo, hi) the bytes name[lo:hi] of an arbitrary byte string (hi None = to its end, size unknown).
+    Concatenation, constant slicing and struct (un)packing are exact on this representation, for ALL values of the symbols.
+    """
+
+    def __init__(self, segs) -> None:
+        self.segs = self._norm(list(segs))
+
+    @staticmethod
+    def _norm(segs):
+        out = []
+        for g in segs:
+            if g[0] == "c" and not g[1]:
+                continue
+            if g[0] == "p":
+                code = g[1].lstrip("@=<>!") if struct.calcsize(g[1]) == 1 and g[1][-1] in "Bb?c" else g[1]
+                g = ("p", code, g[2])
+                if isinstance(g[2], (int, bool)) and not isinstance(g[2], _Sym):
+                    g = ("c", struct.pack(g[1], g[2]))
+            if out and g[0] == "c" and out[-1][0] == "c":
+                out[-1] = ("c", out[-1][1] + g[1])
+            elif out and g[0] == "o" and out[-1][0] == "o" and out[-1][1] == g[1] and out[-1][3] is not None and out[-1][3] == g[2]:
+                out[-1] = ("o", g[1], out[-1][2], g[3])
+            else:
+                out.append(g)
+        return out
+
+    @staticmethod
+    def of(v) -> "_SymBytes":
+        if isinstance(v, _SymBytes):
+            return v
+        if isinstance(v, (bytes, bytearray)):
+            return _SymBytes([("c", bytes(v))])
+        raise MiniRaised(f"TypeError: cannot concatenate {type(v).__name__} to bytes")
+
+    @staticmethod
+    def size(g):
+        if g[0] == "c":
+            return len(g[1])
+        if g[0] == "p":
+            return struct.calcsize(g[1])
+        return None if g[3] is None else g[3] - g[2]
+
+    def __add__(self, other):
+        return _SymBytes(self.segs + _SymBytes.of(other).segs)
+
+    def __radd__(self, other):
+        return _SymBytes(_SymBytes.of(other).segs + self.segs)
+
+    def __eq__(self, other) -> bool:
+        return isinstance(other, (_SymBytes, bytes)) and self.segs == _SymBytes.of(other).segs
+
+    __hash__ = None
+
+    def __bool__(self) -> bool:
+        raise MiniUndecided("the cell codec branches on a symbolic byte string")
+
+    def __repr__(self) -> str:
+        def one(g):
+            return repr(g[1]) if g[0] == "c" else f"pack({g[1]!r}, {g[2]!r})" if g[0] == "p" else f"{g[1]}[{g[2] or ''}:{'' if g[3] is None else g[3]}]"
+        return " + ".join(one(g) for g in self.segs) or "b''"
+
+    def __getitem__(self, sl):
+        if not isinstance(sl, slice) or sl.step is not None:
+            raise MiniUndecided("indexing a symbolic byte string")
+        lo, hi = sl.start or 0, sl.stop
+        if lo < 0 or (hi is not None and hi < 0):
+            raise MiniUndecided("negative slice bound on a symbolic byte string")
+        out, pos = [], 0
+        for g in self.segs:
+            n = self.size(g)
+            end = None if n is None else pos + n
+            if hi is not None and pos >= hi:
+                break
+            a = max(lo - pos, 0)
+            b = None if hi is None else hi - pos
+            if end is not None and end <= lo:
+                pos = end
+                continue
+            if b is not None and n is not None:
+                b = min(b, n)
+            if g[0] == "c":
+                out.append(("c", g[1][a:b]))
+            elif g[0] == "o":
+                out.append(("o", g[1], g[2] + a, (g[3] if b is None or (n is not None and b == n) else g[2] + b)))
+            elif a == 0 and (b is None or b == n):
+                out.append(g)
+            else:
+                out.append(("x", f"bytes {a}:{b} of pack({g[1]!r}, {g[2]!r})"))     # a slice through the middle of a field: equal to nothing
+            if end is None:
+                break
+            pos = end
+        return _SymBytes(out)
+
+    def unpack_from(self, fmt: str, offset: int):
+        vals, pos, i = [], 0, 0
+        want = offset
+        for code in _fields_of(fmt):
+            n = struct.calcsize(code)
+            hit = None
+            pos = 0
+            for g in self.segs:
+                m = self.size(g)
+                if pos == want and g[0] == "p" and struct.calcsize(g[1]) == n and g[1].lstrip("@=<>!") == code.lstrip("@=<>!") \
+                        and (n == 1 or g[1][:1] == code[:1] or {g[1][:1], code[:1]} <= {"!", ">"}):
+                    hit = g[2]
+                    break
+                if g[0] == "c" and m is not None and pos <= want and want + n <= pos + m:
+                    hit = struct.unpack(code, g[1][want - pos:want - pos + n])[0]
+                    break
+                if m is None:
+                    break
+                pos += m
+            if hit is None:
+                raise MiniRaised(f"reads {code!r} at byte {want}, but the wire layout is {self!r}")
+            vals.append(hit)
+            want += n
+        return tuple(vals)
+
+
+def _sym_struct(name, base, args, kwargs):
+    """struct on symbolic layouts (exact for all values of the symbols)"""
+    if name in ("pack", "struct.pack") and args and isinstance(args[0], str):
+        codes = _fields_of(args[0])
+        if len(codes) != len(args) - 1:
+            raise MiniRaised(f"struct.error: pack expected {len(codes)} items for packing (got {len(args) - 1})")
+        return _SymBytes([("p", c, v) for c, v in zip(codes, args[1:])])
+    if name in ("unpack_from", "struct.unpack_from") and len(args) >= 2 and isinstance(args[0], str):
+        off = args[2] if len(args) > 2 else kwargs.get("offset", 0)
+        return _SymBytes.of(args[1]).unpack_from(args[0], off)
+    if name in ("unpack", "struct.unpack") and len(args) == 2 and isinstance(args[0], str):
+        return _SymBytes.of(args[1]).unpack_from(args[0], 0)
+    return NotImplemented
+
+
+class _SymMini(Mini):
+    def _plain(self, v, where) -> None:
+        if not isinstance(v, _SymBytes):
+            super()._plain(v, where)
+
+    def _call(self, e, env):
+        f = e.func
+        if isinstance(f, ast.Attribute) and f.attr == "join" and len(e.args) == 1 and not e.keywords:
+            sep = self._ev(f.value, env)
+            if sep == b"":
+                parts = self._ev(e.args[0], env)
+                if isinstance(parts, (list, tuple)) and any(isinstance(x, _SymBytes) for x in parts):
+                    out = _SymBytes([])
+                    for x in parts:
+                        out = out + x
+                    return out
+        if isinstance(f, ast.Name) and f.id == "bytes" and len(e.args) == 1 and isinstance(e.args[0], (ast.List, ast.Tuple)):
+            elts = [self._ev(x, env) for x in e.args[0].elts]
+            if any(isinstance(x, _Sym) for x in elts):
+                return _SymBytes([("p", "B", x) for x in elts])
+        return super()._call(e, env)
+
+
 def rule_cell_codec(ctx: Ctx) -> None:
     """
-    Cell framing, decided by evaluating CellPayload.__init__/to_bin/from_bin/unwrap and TunnelCommunity.send_cell (mini-interpreter over
-    their AST, struct = trusted stdlib) on sample cells covering every flag combination: only what the functions compute counts, not how
-    the concatenation / header access is spelled.
+    Cell framing, decided on SYMBOLIC layouts: CellPayload.__init__/to_bin/from_bin/unwrap and TunnelCommunity.send_cell are interpreted
+    over their AST with the circuit id, the flags, the message id and the message bytes as arbitrary symbols; concatenation, constant
+    slicing and struct packing are exact on the segment representation (_SymBytes), so each verdict holds for every cell - nothing is
+    sampled and nothing of /repo is executed.  Only what the functions compute counts, not how the concatenation is spelled.
     """
     repo = ctx.repo
     PL = "ipv8/messaging/anonymization/payload.py"
@@ -913,63 +1104,74 @@ def rule_cell_codec(ctx: Ctx) -> None:
     def hooks(name, base, args, kwargs):
         if base is cls_token or (base is None and name == "CellPayload"):
             o = Opaque("CellPayload instance", {"msg_id": msg_id})
-            Mini(repo, init, hooks)(o, *args, **kwargs)
+            _SymMini(repo, init, hooks)(o, *args, **kwargs)
             return o
-        return struct_hooks(name, base, args, kwargs)
+        return _sym_struct(name, base, args, kwargs)
 
     def attempt(f, *a):
         try:
             return f(*a)
         except MiniRaised as e:
             return f"raises {e}"
-    prefix = bytes(range(0x30, 0x30 + 22))          # version, service id, ...: the 22 bytes before the message id
-    samples = [(cid, msg, pt, re_) for cid in (0, 1, 0x01020304, 0xFFFFFFFF) for msg in (b"", b"\x07", b"\x07tunnel payload") for pt in (False, True) for re_ in (False, True)]
+    prefix = _SymBytes([("o", "prefix", 0, 22)])          # version, service id, ...: the 22 bytes before the message id
+    cid, pt, re_ = _Sym("circuit_id"), _Sym("plaintext"), _Sym("relay_early")
+    msg = _SymBytes([("o", "message", 0, None)])
     try:
-        bad_layout, bad_round = [], []
-        for cid, msg, pt, re_ in samples:
-            cell = hooks("CellPayload", None, [cid, msg, pt, re_], {})
-            wire = attempt(Mini(repo, tb, hooks), cell, prefix)
-            want = prefix + bytes([msg_id]) + struct.pack("!I??", cid, pt, re_) + msg
-            if wire != want:
-                bad_layout.append(((cid, msg, pt, re_), wire))
-                continue
-            back = attempt(Mini(repo, fb, hooks), cls_token, wire)
+        cell = hooks("CellPayload", None, [cid, msg, pt, re_], {})
+        wire = attempt(_SymMini(repo, tb, hooks), cell, prefix)
+        want = prefix + bytes([msg_id]) + _SymBytes([("p", "!I", cid), ("p", "!?", pt), ("p", "!?", re_)]) + msg
+        ok = isinstance(wire, _SymBytes) and wire == want
+        ctx.check(ok, "cell-codec", tb, tb.node, "cell = prefix + msg_id + header '!I??' (circuit_id, plaintext, relay_early) at byte 23 + message",
+                  f"to_bin layout changed: it builds {wire!r}; documented: {want!r}")
+        if ok:
+            back = attempt(_SymMini(repo, fb, hooks), cls_token, wire)
             got = tuple(back.attrs.get(f) for f in fields) if isinstance(back, Opaque) else back
-            if got != (cid, msg, pt, re_):
-                bad_round.append(((cid, msg, pt, re_), got))
-        ctx.check(not bad_layout, "cell-codec", tb, tb.node, "cell = prefix + msg_id + header '!I??' (circuit_id, plaintext, relay_early) at byte 23 + message",
-                  f"to_bin layout changed: for (circuit_id, message, plaintext, relay_early) = {bad_layout[0][0] if bad_layout else ''} it gives {bad_layout[0][1] if bad_layout else ''!r}, "
-                  "documented: prefix + msg_id + pack('!I??', circuit_id, plaintext, relay_early) + message")
-        ctx.check(not bad_round, "cell-codec", fb, fb.node, "from_bin(to_bin(cell)) restores circuit_id, message, plaintext, relay_early for every sample cell",
-                  f"from_bin is not the inverse of to_bin: cell {bad_round[0][0] if bad_round else ''} comes back as {bad_round[0][1] if bad_round else ''} "
-                  "(header field order / offsets 23 and 29 differ between the two sides)")
+            same = isinstance(got, tuple) and len(got) == 4 and got[0] is cid and got[2] is pt and got[3] is re_ and isinstance(got[1], _SymBytes) and got[1] == msg
+            ctx.check(same, "cell-codec", fb, fb.node, "from_bin(to_bin(cell)) restores circuit_id, message, plaintext, relay_early (symbolically: for every cell)",
+                      f"from_bin is not the inverse of to_bin: the cell (circuit_id, message, plaintext, relay_early) comes back as {got!r} "
+                      "(header field order / offsets 23 and 29 differ between the two sides)")
         # unwrap <-> TunnelCommunity.send_cell: send_cell strips the 4-byte circuit id off the packed payload and puts the msg id first;
         # unwrap must give back  prefix + msg id + the packed payload  (circuit id re-inserted right after the msg id)
         sc = repo.method("TunnelCommunity", "send_cell", "ipv8/messaging/anonymization/community.py")
-        bad_unwrap = []
-        for cid in (1, 0x01020304):
-            for mid in (2, 9):
-                body = b"\x00\x11\x22\x33\x44"
-                packed = struct.pack("!I", cid) + body           # every cellable payload starts with circuit_id:'I' (checked below)
-                payload = Opaque("payload", {"circuit_id": cid, "msg_id": mid})
-                sent = []
+        mid = _Sym("msg_id")
+        packed = _SymBytes([("p", "!I", cid), ("o", "payload body", 0, None)])   # every cellable payload starts with circuit_id:'I' (checked below)
+        payload = Opaque("payload", {"circuit_id": cid, "msg_id": mid})
+        sent = []
 
-                def sc_hooks(name, base, args, kwargs, payload=payload, packed=packed, sent=sent):
-                    if name is not None and name.endswith(".pack_serializable") and args == [payload]:
-                        return packed
-                    if name is not None and name.endswith(".send_cell") and len(args) == 2:
-                        sent.append(args[1])
-                        return None
-                    return hooks(name, base, args, kwargs)
-                me = Opaque("TunnelCommunity", {"serializer": Opaque("serializer"), "crypto_endpoint": Opaque("crypto_endpoint")})
-                attempt(Mini(repo, sc, sc_hooks), me, Opaque("address"), payload)
-                cell = sent[0] if len(sent) == 1 and isinstance(sent[0], Opaque) else None
-                plain = attempt(Mini(repo, uw, hooks), cell, prefix) if cell is not None else "send_cell hands no cell to the crypto endpoint"
-                if plain != prefix + bytes([mid]) + packed or cell.attrs.get("circuit_id") != cid:
-                    bad_unwrap.append(((cid, mid), plain))
-        ctx.check(not bad_unwrap, "cell-codec", uw, uw.node, "unwrap re-inserts the 4-byte circuit id exactly where send_cell stripped it (after the msg id)",
-                  f"send_cell / unwrap disagree on where the circuit id sits: for (circuit_id, msg_id) = {bad_unwrap[0][0] if bad_unwrap else ''} unwrap gives "
-                  f"{bad_unwrap[0][1] if bad_unwrap else ''!r}, not prefix + msg_id + pack_serializable(payload)")
+        def sc_hooks(name, base, args, kwargs):
+            if name is not None and name.endswith(".pack_serializable") and args == [payload]:
+                return packed
+            if name is not None and name.endswith(".send_cell") and len(args) == 2:
+                sent.append(args[1])
+                return None
+            if name == "in" or (name is None and False):
+                return NotImplemented
+            return hooks(name, base, args, kwargs)
+        me = Opaque("TunnelCommunity", {"serializer": Opaque("serializer"), "crypto_endpoint": Opaque("crypto_endpoint")})
+        try:
+            attempt(_SymMini(repo, sc, sc_hooks), me, Opaque("address"), payload)
+        except MiniUndecided:
+            # send_cell computes `cell.plaintext = payload.msg_id in NO_CRYPTO_PACKETS` on the symbolic message id: irrelevant for the layout
+            pass
+        cell2 = sent[0] if len(sent) == 1 and isinstance(sent[0], Opaque) else None
+        if cell2 is None:
+            # the flag computation on a symbolic message id stopped the interpretation before the hand-over: retry with each concrete class of id
+            for concrete in (2, 9):
+                sent.clear()
+                payload.attrs["msg_id"] = concrete
+                attempt(_SymMini(repo, sc, sc_hooks), me, Opaque("address"), payload)
+                cell2 = sent[0] if len(sent) == 1 and isinstance(sent[0], Opaque) else None
+                plain = attempt(_SymMini(repo, uw, hooks), cell2, prefix) if cell2 is not None else "send_cell hands no cell to the crypto endpoint"
+                want2 = prefix + bytes([concrete]) + packed
+                ok2 = isinstance(plain, _SymBytes) and plain == want2 and cell2.attrs.get("circuit_id") is cid
+                ctx.check(ok2, "cell-codec", uw, uw.node, "unwrap re-inserts the 4-byte circuit id exactly where send_cell stripped it (after the msg id)",
+                          f"send_cell / unwrap disagree on where the circuit id sits: unwrap gives {plain!r}, not {want2!r}")
+        else:
+            plain = attempt(_SymMini(repo, uw, hooks), cell2, prefix)
+            want2 = prefix + _SymBytes([("p", "B", mid)]) + packed
+            ok2 = isinstance(plain, _SymBytes) and plain == want2 and cell2.attrs.get("circuit_id") is cid
+            ctx.check(ok2, "cell-codec", uw, uw.node, "unwrap re-inserts the 4-byte circuit id exactly where send_cell stripped it (after the msg id)",
+                      f"send_cell / unwrap disagree on where the circuit id sits: unwrap gives {plain!r}, not {want2!r}")
     except MiniUndecided as e:
         raise AnalysisError(f"undecided: cell-codec: {e}") from e
     # every cellable payload starts with the circuit id as "I"
